@@ -91,6 +91,10 @@ def apply_bin(op, a, b):
         if a is None or b is None:
             return None
         return a != b
+    if op == "/" and a is None and b is not None and b == 0:
+        # null divided by zero: null (null operand) or a division-by-zero error - not settled by the offline sources; either outcome is accepted
+        SEEN["err"] += 1
+        return None
     if a is None or b is None:
         return None
     if op == "+":
